@@ -7,6 +7,7 @@ import QRV.Model.QR
 import QRV.Model.Micro
 import QRV.Model.RMQR
 import QRV.Spec.Bits
+import QRV.Model.Render
 /-
 Line-protocol driver over the executable model: one operation per input line, one canonical
 result per output line.  The Go harness (harness/main) reads the same lines and calls the real
@@ -192,6 +193,8 @@ def step (toks : List String) : String :=
     (RMQR.calcVersion l.toInt! p.toInt! (parseSegs segs)).render fun | some v => toString v | none => "none"
   | ["rm.seglen", v, l, m, h] =>
     (RMQR.segLength { mode := m.toNat!, data := parseHex h } v.toInt! l.toInt!).render fun | some n => toString n | none => "none"
+  | ["render.dims", nw, nh, q, sn, sd, w] =>
+    s!"ok {Render.outWidth nw.toNat! q.toNat! sn.toNat! sd.toNat! w.toNat!} {Render.outHeight nw.toNat! nh.toNat! q.toNat! sn.toNat! sd.toNat! w.toNat!}"
   | _ => "bad-op"
 
 partial def loop (hin hout : IO.FS.Stream) : IO Unit := do
